@@ -30,6 +30,8 @@ int write_amiga(Memory *memory, FILE *out)
 {
   uint32_t n;
   uint32_t length = (memory->high_address + 1) - memory->low_address;
+  // Hunk sizes are in longwords: round up and pad with zeros.
+  uint32_t longs = (length + 3) / 4;
 
   // Hunk file header.
   write_uint32(out, HUNK_HEADER); // magic_cookie
@@ -37,16 +39,18 @@ int write_amiga(Memory *memory, FILE *out)
   write_uint32(out, 0x00000001);  // table_length
   write_uint32(out, 0x00000000);  // first_hunk
   write_uint32(out, 0x00000000);  // last_hunk
-  write_uint32(out, length / 4);  // length of code
+  write_uint32(out, longs);       // length of code
 
   // Hunk code.
   write_uint32(out, HUNK_CODE);   // hunk_code
-  write_uint32(out, length / 4);  // length of code
+  write_uint32(out, longs);       // length of code
 
   for (n = memory->low_address; n <= memory->high_address; n++)
   {
     putc(memory->read8(n), out);
   }
+
+  for (n = length; n < longs * 4; n++) { putc(0, out); }
 
   // Hunk end.
   write_uint32(out, HUNK_END);    // hunk_end
